@@ -88,6 +88,7 @@ func init() {
 			{ID: "C09.R3", Title: "the error result of r.Read in (*Stream).read flows to a Stream field or a return value", Covers: "a reader error other than EOF is reported, never turned into a decoded value", Min: 1, Run: c09r3},
 			{ID: "C09.R5", Title: "the operand of utf8.FullRune on the stream window ends at s.length", Covers: "a multi-byte character split across chunks decodes as in buffer mode", Min: 1, Run: c09r5},
 			{ID: "C06.R5", Title: "look-ahead reads are length-guarded (shared with C06; in stream mode a single refill is not a guard, a loop until enough bytes is)", Covers: "escapes split over several reads decode as in buffer mode", Min: 25, Run: c06r5},
+			{ID: "C09.R6", Title: "wherever the stream window is spliced in place (s.buf = append(append(s.buf[:A], X...), s.buf[B:]...)) the update of s.length in the same statement list equals A + len(X) - B as a linear form", Covers: "after an escape or invalid byte was rewritten, the scanners still know how much data the window holds", Min: 3, Run: c09r6},
 			{ID: "C09.R4", Title: "for 13 buffer/stream scanner pairs the value-start dispatch sends the same non-NUL byte values to an error and names the same bytes in its case labels", Covers: "both modes give the same accept/reject verdict at value start", Min: 20, Run: c09r4},
 		},
 	})
